@@ -355,9 +355,13 @@ def time_sections(ctx, pid):
     s = Section("encoder-time-contracts", "smt",
                 rule="encode_time of PVLEncoder / ODLEncoder / PDSLabelEncoder: the written fields are the value's fields at its "
                      "precision, the written zone denotes the value's offset (sign * (HH*3600 + MM*60) == utcoffset), or ValueError "
-                     "exactly when the dialect cannot represent the value")
+                     "exactly when the dialect cannot represent the value; encode_date writes a four-digit year; encode_datetime is the date text, "
+                     "'T' and the time text of the same value")
     t0 = time.time()
     verify_contracts(s, ce.time_contracts(pid), TimeTheory, ["pvl.encoder"], jobs=min(3, ctx.jobs))
+    d_own, d_callers = ce.date_contracts()
+    verify_contracts(s, d_own, TimeTheory, ["pvl.encoder"], jobs=1)           # encode_date
+    verify_contracts(s, d_callers, TimeTheory, ["pvl.encoder"], jobs=4)       # encode_datetime for the four receivers
     s.assumptions += TIME_ASSUMPTIONS
     s.seconds = time.time() - t0
     from ..pyvc.timetheory import OffsetTheory
